@@ -143,13 +143,13 @@ def mut_cases(draw, tier="quick"):
         return dict(base=base, muts=[], loop=None, idx_lens=lens, tool=draw(st.sampled_from(["list", "describe", "stat", "sqfs2tar", "diff", "unpack"])),
                     path=draw(st.sampled_from([b"/", b"/idx", b"/idx"])))
     if draw(st.sampled_from([False] * 7 + [True])):
-        return dict(base=base, muts=muts[:1], loop=None, sbflags=draw(st.sampled_from([0x0200, 0x0200, 0x0080, 0x0010, 0x0020, 0x0001, 0x0002, 0x0800, 0x0400, 0x0290])),
-                    tool=draw(st.sampled_from(["list", "describe", "stat", "xattr", "cat", "unpack", "unpack", "sqfs2tar", "diff"])),
+        return dict(base=base, muts=muts[:1], loop=None, sbflags=draw(st.sampled_from([0x0200, 0x0200, 0x0200, 0x0080, 0x0010, 0x0020, 0x0001, 0x0002, 0x0800, 0x0400, 0x0290])),
+                    tool=draw(st.sampled_from(["list", "describe", "stat", "xattr", "cat", "unpack", "unpack", "unpack", "sqfs2tar", "diff"])),
                     path=draw(st.sampled_from([b"/", b"/sub", b"/big", b"/f03", b"/sub/hl"])))
     focus = draw(st.sampled_from([False, False, True]))
     if focus:
         # one field of a regular file's inode (size, block words, fragment location, start) changed, then the data of exactly that file is read
-        muts = [(draw(st.integers(0, 10 ** 6)), draw(st.sampled_from(["plus1", "minus1", "half", "bit", "bit", "one", "x256", "other", "zero", "max"])),
+        muts = [(draw(st.integers(0, 10 ** 6)), draw(st.sampled_from(["plus1", "minus1", "half", "bit", "bit", "one", "x256", "other", "zero", "max", "v120", "v600"])),
                  draw(st.integers(0, 31)))]
         loop = None
         return dict(base=base, muts=muts, loop=None, focus=True, tool=draw(st.sampled_from(["cat", "cat", "cat", "unpack", "sqfs2tar", "sqfs2tar", "diff", "stat", "describe"])), path=b"/")
@@ -223,6 +223,8 @@ def build_mutated(case):
             v = (cur * 256) & mx
         elif how == "bit":
             v = cur ^ (1 << (bit % (8 * w)))
+        elif how[:1] == "v":
+            v = int(how[1:]) & mx      # a plausible, moderately larger value (length fields: beyond the 100 byte tar header field, below a metadata block)
         else:
             n2, o2, w2 = fields[(sel * 7 + 3) % len(fields)]
             v = int.from_bytes(img[o2:o2 + w2], "little") & mx
@@ -278,7 +280,8 @@ def check_mut_case(case, opts):
                 raise Inconclusive("unpack of a file whose claimed size was enlarged is legitimately unbounded")
             out = os.path.join(sc, "unp")
             os.mkdir(out)
-            cmd = [rd, "-u", case["path"] if case["path"] in (b"/", b"/sub") else b"/", "-p", out, "-q", "-T", "-C", "-X", p]
+            # (every --unpack-path other than / fails on this code base before anything is unpacked)
+            cmd = [rd, "-u", b"/", "-p", out, "-q", "-T", "-C", "-X", p]
         elif tool in ("sqfs2tar", "sqfs2tar_nohl"):
             if _unbounded(applied):
                 raise Inconclusive("archive of a file whose claimed size was enlarged is legitimately unbounded")
@@ -318,6 +321,54 @@ def strat(tier, opts):
 
 def check_case(case, opts):
     return check_mut_case(case, opts)
+
+
+def _flag_job(args):
+    base, flag, tool, path = args
+    case = dict(base=base, muts=[], loop=None, sbflags=flag, tool=tool, path=path)
+    try:
+        check_mut_case(case, {"prop": PROP})
+        return (case, None)
+    except Inconclusive:
+        return (case, None)
+    except Violation as v:
+        return (case, v.what)
+
+
+def _field_job(args):
+    base, idx, how, tool = args
+    case = dict(base=base, muts=[(idx, how, 5)], loop=None, focus=True, tool=tool, path=b"/")
+    try:
+        check_mut_case(case, {"prop": PROP})
+        return (case, None)
+    except Inconclusive:
+        return (case, None)
+    except Violation as v:
+        return (case, v.what)
+
+
+def field_matrix():
+    """every size / location field of every regular file and symlink inode x every boundary operation, then the tools that read exactly
+    that inode's data (Hypothesis samples such triples very unevenly; the space is small enough to enumerate)"""
+    jobs = []
+    for base in (0, 1):
+        img, lay = sqfswrite.build(sqfswrite.simple_tree(), data_comp=(base == 1), pad=4096)
+        fields = [f for f in lay if f[1] + f[2] <= len(img)]
+        filef = [f for f in fields if (".file." in f[0] or ".slink." in f[0]) and not f[0].endswith((".nlink", ".xattr"))]
+        for idx, f in enumerate(filef):
+            tools = ["cat", "sqfs2tar"] if ".file." in f[0] else ["sqfs2tar", "describe", "unpack"]
+            for how in ("plus1", "minus1", "half", "x256", "zero", "one", "max", "other", "v120", "v600"):
+                for tool in tools:
+                    jobs.append((base, idx, how, tool))
+    return vcommon.pmap(_field_job, jobs, 8)
+
+
+def flag_matrix():
+    """every super block feature flag flipped on its own (and the no-xattrs / no-fragments pairs) x every tool: small enough to enumerate"""
+    flags = [1 << b for b in range(12)] + [0x0290, 0x0030, 0x0201]
+    tools = ["list", "describe", "stat", "xattr", "cat", "unpack", "sqfs2tar", "sqfs2tar_nohl", "diff"]
+    jobs = [(base, fl, tool, {"stat": b"/big", "xattr": b"/big", "cat": b"/big", "list": b"/sub"}.get(tool, b"/")) for base in (0, 1) for fl in flags for tool in tools]
+    return vcommon.pmap(_flag_job, jobs, 6)
 
 
 def main(tier, seed, scale=1.0):
@@ -375,6 +426,19 @@ def main(tier, seed, scale=1.0):
         hth.join()
         for d in hout["r"]:
             res.merge_shard(d)
+        if scale >= 0.2:
+            fm = flag_matrix()
+            res.add_class("flag_matrix", len(fm))
+            fm2 = field_matrix()
+            res.add_class("field_matrix", len(fm2))
+            fm = fm + fm2
+            res.evaluations += len(fm)
+            seen_what = set()
+            for case, what in fm:
+                res.nontrivial.add(vcommon.case_hash(case))
+                if what and what.split(":")[0] not in seen_what and len(seen_what) < 3:
+                    seen_what.add(what.split(":")[0])
+                    res.violations.append((what, vcommon.save_replay(PROP, case, what)))
         res.nt_count += len(res.nontrivial)
     vcommon.run_corpus(PROP, check_case, opts, res)
     res.rule = ("(a) coverage-guided libFuzzer (ASan+UBSan) over the reader API as used by the tools, 10 jobs, seeded with Python- and "
